@@ -127,7 +127,10 @@ def run_topo(ctx, lines, pend, pp, dp, mp, rng, ranks=None):
     except Exception as e:  # noqa: BLE001
         ctx.fail(f'construction/query raised {type(e).__name__}: {e}', case, 'raised')
         return
-    oracle(ctx, pp, dp, mp, works, objs, callseqs, topo)
+    try:
+        oracle(ctx, pp, dp, mp, works, objs, callseqs, topo)
+    except Exception as e:  # noqa: BLE001  (e.g. a worker rank outside the topology)
+        ctx.fail(f'the assignment\'s answers are not even well-formed for this topology: {type(e).__name__}: {e}', case, 'ill-formed')
     naxes = sum(1 for x in (pp, dp, mp) if x > 1)
     ctx.case((pp, dp, mp, tuple(gen.work_str(w) for w in works)), nontrivial=naxes >= 2, sample=case if world <= 8 else None)
     ctx.count(f'axes>1:{naxes}')
